@@ -302,6 +302,13 @@ C06_SentValue(X) ==
                         /\ \A i \in CCs(kn) : X.o[i][3] = 0
             ELSE \A i \in CCs(kp) : CCValueOK(X.o[i][3], IF cn THEN <<v[1] + v[2], 2 * v[2]>> ELSE v)
 
+\* ... and an axis report that is processed (ProcessedAxis below: not a repetition of the axis' previous position, not
+\* gated by cc-learning - decided from the inputs alone) IS transmitted, whatever happened between the reports: a stick
+\* let go after a mapping switch sends its rest value
+C06_Transmits(X) ==
+  (IsAxisIn(X) /\ X.br \notin {"AxisUndefined", "AxisDuplicate", "AxisLearningGate"}
+     /\ X.in.a \in AxesOf(X.c, X.pre.map) /\ AxisDef(X.c, X.pre, X.in.a).type \in {"cc", "pitch_bend"}) => X.o # <<>>
+
 \* consecutive transmitted events of one axis: the receiver value moves with the raw position
 C06_Monotone(X) ==
   (Transmitted(X) /\ X.in.a \in AxesOf(X.c, X.pre.map)
@@ -467,7 +474,7 @@ C14_NeverEarly(X) ==
 PredNames == {
   "C01_Quiescent", "C01_DisconnectSilent", "C02_ReleasePinned", "C02_ReleaseEmits", "C02_StateActionsSilent",
   "C03_PressRule", "C03_ReleaseRule", "C04_PressPitch", "C04_SilentPress", "C04_State",
-  "C05_WellFormed", "C06_Controller", "C06_PitchBend", "C06_Monotone", "C06_SentValue",
+  "C05_WellFormed", "C06_Controller", "C06_PitchBend", "C06_Monotone", "C06_SentValue", "C06_Transmits",
   "C07_Exclusive", "C07_SideMatches", "C07_LearningGate",
   "C08_On", "C08_OnlyConfigured", "C08_Off", "C08_Exclusive", "C08_Pinned",
   "C13_PanicOut", "C13_PanicAxis", "C13_PanicNeutral", "C13_AsIfNoPanic", "C14_Fires", "C14_NeverEarly" }
@@ -489,6 +496,7 @@ Pred(n, X) ==
     [] n = "C06_PitchBend" -> C06_PitchBend(X)
     [] n = "C06_Monotone" -> C06_Monotone(X)
     [] n = "C06_SentValue" -> C06_SentValue(X)
+    [] n = "C06_Transmits" -> C06_Transmits(X)
     [] n = "C07_Exclusive" -> C07_Exclusive(X)
     [] n = "C07_SideMatches" -> C07_SideMatches(X)
     [] n = "C07_LearningGate" -> C07_LearningGate(X)
@@ -507,7 +515,7 @@ Pred(n, X) ==
 Relevant(n, X) ==
   CASE X.in.ev = "axis" -> n \notin {"C02_ReleasePinned", "C02_ReleaseEmits", "C13_AsIfNoPanic", "C02_StateActionsSilent", "C03_PressRule", "C03_ReleaseRule",
                                      "C04_PressPitch", "C04_SilentPress", "C13_PanicOut", "C13_PanicNeutral", "C14_Fires"}
-    [] X.in.ev \in {"press", "release"} -> n \notin {"C06_Controller", "C06_PitchBend", "C06_Monotone", "C06_SentValue", "C07_Exclusive",
+    [] X.in.ev \in {"press", "release"} -> n \notin {"C06_Controller", "C06_PitchBend", "C06_Monotone", "C06_SentValue", "C06_Transmits", "C07_Exclusive",
                                      "C07_SideMatches", "C07_LearningGate", "C08_On", "C08_OnlyConfigured", "C08_Off",
                                      "C08_Exclusive", "C08_Pinned"}
     [] OTHER -> n \in {"C01_Quiescent", "C01_DisconnectSilent", "C05_WellFormed", "C14_NeverEarly"}
